@@ -14,7 +14,7 @@ ROOT = os.path.dirname(os.path.dirname(os.path.abspath(__file__)))
 
 def main():
     ids = [a for a in sys.argv[1:] if not a.startswith('--')]
-    dirs = sorted(glob.glob(os.path.join(ROOT, 'seeded', 'C*-m*')))
+    dirs = sorted(glob.glob(os.path.join(ROOT, 'seeded', 'C*-*m*')))
     if ids:
         dirs = [d for d in dirs if os.path.basename(d) in ids]
     bad = 0
